@@ -102,7 +102,7 @@ def scan (g : Graph) (a : Run.Args) (tr : List Ev) : Scan :=
 def wantedFiles (g : Graph) (a : Run.Args) : Option (List Nat) :=
   if !a.targets.isEmpty then
     a.targets.foldl (fun acc n =>
-      match acc, Run.lookup g n with
+      match acc, Run.lookupM g a n with
       | some l, .ok (some t) => some (if t = a.manifest then l else l ++ [t])
       | some l, .ok none => if a.adopt then some l else none
       | _, _ => none) (some [])
@@ -111,7 +111,7 @@ def wantedFiles (g : Graph) (a : Run.Args) : Option (List Nat) :=
 
 /-- The command-line names that resolve (used when another one does not). -/
 def resolvable (g : Graph) (a : Run.Args) : List Nat :=
-  a.targets.filterMap (fun n => match Run.lookup g n with | .ok (some t) => some t | _ => none)
+  a.targets.filterMap (fun n => match Run.lookupM g a n with | .ok (some t) => some t | _ => none)
 
 /-- Builds in the closure of the wanted files over ordering and validation producers. -/
 def wantedBuilds (g : Graph) (a : Run.Args) (files : List Nat) (withManifest : Bool := true) : List Nat :=
